@@ -65,6 +65,7 @@ func runC16(c *Ctx) {
 	c.Rule("R-ACCESSORCOV", "every accessor of the config interfaces is consulted by the writers", 60)
 	c.Rule("COLLAPSE-GUARD", "the lossy collapse of the single root module is guarded on every field it would drop", 4)
 	c.Rule("VERSION-SWITCH", "switches over FileVersion are total or fail loudly", 8)
+	c16MigrateCoverage(c)
 	pk := p.Pkg("private/bufpkg/bufconfig")
 	if pk == nil {
 		c.Fail("R-FIELDCOV", "anchor", token.NoPos, "bufconfig not found")
@@ -275,5 +276,107 @@ func c16Collapse(c *Ctx) {
 	})
 	if !found {
 		c.Fail("COLLAPSE-GUARD", "writeBufYAMLFile/collapse", fr.Decl.Pos(), "no collapse of the module list found")
+	}
+}
+
+
+// accessors a v1->v2 conversion need not consult
+var c16MigrateNotConsulted = map[string]string{
+	"FileVersion": "the result is a v2 configuration by construction",
+}
+
+// c16MigrateCoverage (MIGRATE-ACCESSORCOV, added after finding F24): a function of bufmigrate that turns a v1 or
+// v1beta1 configuration value into its v2 equivalent (equivalent…InV2) consults every attribute of its input: each
+// exported niladic method of the parameter's interface is called on the parameter, or the parameter is handed whole
+// to another such conversion whose input interface has the method. An attribute that is not consulted cannot be
+// preserved (Disabled() was not: switched-off checks came back on).
+func c16MigrateCoverage(c *Ctx) {
+	const rule = "MIGRATE-ACCESSORCOV"
+	c.Rule(rule, "the v1->v2 conversions of bufmigrate consult every attribute of the configuration they convert", 15)
+	p := c.P
+	pk := p.Pkg("private/buf/bufmigrate")
+	if pk == nil {
+		c.Fail(rule, "anchor", token.NoPos, "bufmigrate not found")
+		return
+	}
+	info := pk.TypesInfo
+	type conv struct {
+		fr    *FuncRef
+		param *types.Var
+		iface *types.Interface
+		name  string
+	}
+	convs := map[*types.Func]*conv{}
+	for _, fr := range p.FuncsOf(pk) {
+		n := fr.Decl.Name.Name
+		if !strings.HasPrefix(n, "equivalent") || !strings.HasSuffix(n, "InV2") || fr.Decl.Body == nil {
+			continue
+		}
+		for _, fl := range fr.Decl.Type.Params.List {
+			for _, nm := range fl.Names {
+				v, _ := info.Defs[nm].(*types.Var)
+				if v == nil {
+					continue
+				}
+				if it, ok := v.Type().Underlying().(*types.Interface); ok && strings.HasSuffix(namedPath(v.Type()), "bufconfig."+namedName(v.Type())) {
+					fobj, _ := info.Defs[fr.Decl.Name].(*types.Func)
+					convs[fobj] = &conv{fr, v, it, namedName(v.Type())}
+				}
+			}
+		}
+	}
+	if len(convs) < 3 {
+		c.Fail(rule, "conversions", token.NoPos, "only %d equivalent…InV2 conversions found in bufmigrate", len(convs))
+	}
+	for _, cv := range convs {
+		called := map[string]bool{}
+		var delegated []*conv
+		ast.Inspect(cv.fr.Decl.Body, func(n ast.Node) bool {
+			call, ok := n.(*ast.CallExpr)
+			if !ok {
+				return true
+			}
+			if sel, ok := call.Fun.(*ast.SelectorExpr); ok && identObj(info, sel.X) == types.Object(cv.param) {
+				called[sel.Sel.Name] = true
+			}
+			if fn := Callee(info, call); fn != nil {
+				if d, ok := convs[fn]; ok {
+					for _, a := range call.Args {
+						if identObj(info, a) == types.Object(cv.param) {
+							delegated = append(delegated, d)
+						}
+					}
+				}
+			}
+			return true
+		})
+		for i := 0; i < cv.iface.NumMethods(); i++ {
+			m := cv.iface.Method(i)
+			sig := m.Type().(*types.Signature)
+			if !m.Exported() || sig.Params().Len() != 0 || sig.Results().Len() == 0 {
+				continue
+			}
+			key := cv.fr.Decl.Name.Name + "/" + cv.name + "." + m.Name()
+			if why, ok := c16MigrateNotConsulted[m.Name()]; ok && !called[m.Name()] {
+				c.Ob(rule, key, cv.fr.Decl.Pos(), true, false, "not consulted, reviewed: %s", why)
+				continue
+			}
+			ok := called[m.Name()]
+			via := "called on the parameter"
+			if !ok {
+				for _, d := range delegated {
+					for j := 0; j < d.iface.NumMethods(); j++ {
+						if d.iface.Method(j).Name() == m.Name() {
+							ok = true
+							via = "the parameter is handed whole to " + d.fr.Decl.Name.Name
+						}
+					}
+				}
+			}
+			if !ok {
+				via = "never consulted: the attribute cannot survive the migration"
+			}
+			c.Ob(rule, key, cv.fr.Decl.Pos(), ok, true, "%s.%s(): %s", cv.name, m.Name(), via)
+		}
 	}
 }
